@@ -107,6 +107,102 @@ def make_run(pre_factories, distinct, backend, same_backend=True):
     return run
 
 
+def u6_run(carve):
+    """native unions against a Python oracle: multiplicities of union / union(distinct=True), NULL rows, column alignment by
+    name, chained unions - and the operands (themselves unions) still mean the same after being used as operands"""
+    import collections
+    import warnings
+
+    import polars as pl
+    import sqlalchemy as sqa
+
+    from .c13 import _enum_outcome
+
+    A = pl.DataFrame({"a": [1, 1, 2, None, None], "b": ["x", "x", "y", None, None]})
+    B = pl.DataFrame({"b": ["x", "z", None, "y"], "a": [1, 3, None, 2]})
+    Cc = pl.DataFrame({"a": [1, 4, None], "b": ["x", "w", None]})
+    rows = lambda df: [tuple(r) for r in df.select("a", "b").rows()]  # noqa: E731
+    ra, rb, rc = rows(A), rows(B), rows(Cc)
+
+    def dist(rs):
+        seen, out = set(), []
+        for r in rs:
+            if r not in seen:
+                seen.add(r)
+                out.append(r)
+        return out
+
+    n, bad = 0, []
+    eng = sqa.create_engine("sqlite://")
+    for nm, df in (("a", A), ("b", B), ("c", Cc)):
+        df.write_database(nm, eng)
+
+    def same(got, want):
+        return collections.Counter(got) == collections.Counter(want)
+
+    with warnings.catch_warnings():
+        warnings.simplefilter("ignore")
+        for be in ("polars", "sqlite"):
+            if be == "polars":
+                a, b, c = pdt.Table(A, name="a"), pdt.Table(B, name="b"), pdt.Table(Cc, name="c")
+            else:
+                a, b, c = (pdt.Table(nm, pdt.SqlAlchemy(eng)) for nm in ("a", "b", "c"))
+            ex = lambda t: [tuple(r) for r in (t >> pdt.export(pdt.Polars())).select("a", "b").rows()]  # noqa: E731
+
+            def chk(label, tbl, want):
+                nonlocal n
+                n += 1
+                try:
+                    got = ex(tbl)
+                except (pdt.errors.SubqueryError, pdt.errors.NotSupportedError):
+                    return
+                except Exception as e:  # noqa: BLE001
+                    bad.append(f"[{be}] {label}: raises {type(e).__name__}: {str(e)[:120]}")
+                    return
+                if not same(got, want):
+                    bad.append(f"[{be}] {label}: {sorted(got, key=str)}; documented {sorted(want, key=str)}")
+
+            s_all = a >> pdt.union(b)
+            s_dis = a >> pdt.union(b, distinct=True)
+            chk("a | b (union all)", s_all, ra + rb)
+            chk("a | b (distinct)", s_dis, dist(ra + rb))
+            chk("(a |d b) |d c", s_dis >> pdt.union(c, distinct=True), dist(ra + rb + rc))
+            chk("a |d b after it was the left operand of another distinct union", s_dis, dist(ra + rb))
+            chk("(a | b) | c (union all chain)", s_all >> pdt.union(c), ra + rb + rc)
+            chk("(a | b) |d c", s_all >> pdt.union(c, distinct=True), dist(ra + rb + rc))
+            chk("a | b after it was an operand (union all)", s_all, ra + rb)
+            chk("c | (a |d b)", c >> pdt.union(s_dis), rc + dist(ra + rb))
+            chk("a |d b after it was the RIGHT operand", s_dis, dist(ra + rb))
+            chk("(a |d b) | (a |d b) via alias", s_dis >> pdt.union(s_dis >> pdt.alias("again")), dist(ra + rb) * 2)
+            chk("a | a (self union)", a >> pdt.union(a), ra + ra)
+            chk("a |d a", a >> pdt.union(a, distinct=True), dist(ra))
+            # operands with different but compatible column types: the union is not refused, so it has to hold all the rows
+            bf = b >> pdt.mutate(a=b.a.cast(pdt.Float64()) + 0.5)
+            rbf = [(None if x is None else x + 0.5, y) for x, y in rb]
+            mixed = a >> pdt.union(bf)
+            chk("a | b' (Int64 | Float64 column)", mixed, [(None if x is None else float(x), y) for x, y in ra] + rbf)
+            n += 1
+            try:
+                got_t = (mixed >> pdt.export(pdt.Polars())).schema["a"]
+                if not mixed.a.dtype().is_float() or not got_t.is_float():
+                    bad.append(f"[{be}] a | b' (Int64 | Float64 column): the result column is announced as {mixed.a.dtype()} and exported as {got_t}")
+            except Exception as e:  # noqa: BLE001
+                bad.append(f"[{be}] a | b' (Int64 | Float64 column): raises {type(e).__name__}")
+            # a column that is a constant on each side is not a constant of the union (verbs after the union)
+            tagged = a >> pdt.mutate(tag=1) >> pdt.union(b >> pdt.mutate(tag=2))
+            n += 1
+            try:
+                cnt = tagged >> pdt.group_by(tagged.tag) >> pdt.summarize(n=pdt.count()) >> pdt.export(pdt.Polars())
+                got = sorted(tuple(r) for r in cnt.select("tag", "n").rows())
+                if got != [(1, len(ra)), (2, len(rb))]:
+                    bad.append(f"[{be}] mutate(tag=1) | mutate(tag=2) >> group_by(tag) >> summarize(count): {got}; documented {[(1, len(ra)), (2, len(rb))]}")
+            except (pdt.errors.SubqueryError, pdt.errors.NotSupportedError):
+                pass
+            except Exception as e:  # noqa: BLE001
+                bad.append(f"[{be}] tagged union >> group_by(tag): raises {type(e).__name__}: {str(e)[:100]}")
+    return _enum_outcome("union / union(distinct=True) multiplicities, NULL rows, alignment by name and chained unions agree with a Python oracle; operands keep their meaning", n, bad)
+
+
 def obligations(tier):
     fi = H.fn_info
     fns = [fi(verbs_mod._union_impl), fi(verbs_mod.union), fi(TS.Cache.update), fi(H.types_mod.lca_type), fi(pdt._internal.pipe.pipeable.check_subquery)]
@@ -122,6 +218,8 @@ def obligations(tier):
             for backend, f in (("polars", fns_p), ("sql", fns_s)):
                 obs.append(Obligation(f"C07/U/{backend}/{ls}u{rs}/distinct={distinct}", "U1-U5", f"union(distinct={distinct}) of {ls} and {rs} on {backend}", make_run(pf, distinct, backend),
                                       functions=f, bounded=f"table widths {ls.w} and {rs.w} (names symbolic, hidden/visible name collisions explored)", tags=("cross_backend",)))
+    obs.append(Obligation("C07/U6/native_oracle", "U6", "unions against a Python oracle (multiplicities, NULL rows, alignment by name, chains, operand reuse)", u6_run, functions=fns_p + [fi(H.sql_backend.SqlImpl.compile_ast)],
+                          bounded="14 union shapes x 2 backends on three small tables with duplicates and NULL rows"))
     pf = [lambda: TS.Pre(TS.Skeleton(("vis",)), "l"), lambda: TS.Pre(TS.Skeleton(("vis",)), "r")]
     for backend, f in (("polars", fns_p), ("sql", fns_s)):
         obs.append(Obligation(f"C07/U1/{backend}/different_backends", "U1", "union of tables with different backends is refused with TypeError", make_run(pf, False, backend, same_backend=False), functions=f, bounded="width 1"))
